@@ -572,9 +572,9 @@ theorem specSameGroup_iff (g : GroupBy) (a b : Snap) :
     cases t <;> cases h <;> cases p <;> simp [List.isPerm_iff, and_assoc]
 
 /-- keys of an association list -/
-def keys (gs : List (GroupKey × List Snap)) : List GroupKey := gs.map (·.1)
+def keys {α : Type} (gs : List (GroupKey × List α)) : List GroupKey := gs.map (·.1)
 
-theorem addToGroups_keys (gs : List (GroupKey × List Snap)) (k : GroupKey) (sn : Snap) :
+theorem addToGroups_keys {α : Type} (gs : List (GroupKey × List α)) (k : GroupKey) (sn : α) :
     keys (addToGroups gs k sn) = if k ∈ keys gs then keys gs else keys gs ++ [k] := by
   induction gs with
   | nil => simp [addToGroups, keys]
@@ -591,11 +591,11 @@ theorem addToGroups_keys (gs : List (GroupKey × List Snap)) (k : GroupKey) (sn 
       · simp [hm, this]
       · simp [hm, this]
 
-theorem mem_keys_of_mem {gs : List (GroupKey × List Snap)} {k l} (h : (k, l) ∈ gs) : k ∈ keys gs :=
+theorem mem_keys_of_mem {α : Type} {gs : List (GroupKey × List α)} {k l} (h : (k, l) ∈ gs) : k ∈ keys gs :=
   List.mem_map.mpr ⟨(k, l), h, rfl⟩
 
-theorem addToGroups_lookup (gs : List (GroupKey × List Snap)) (k : GroupKey) (sn : Snap)
-    (hnd : (keys gs).Nodup) (k' : GroupKey) (l : List Snap) :
+theorem addToGroups_lookup {α : Type} (gs : List (GroupKey × List α)) (k : GroupKey) (sn : α)
+    (hnd : (keys gs).Nodup) (k' : GroupKey) (l : List α) :
     (k', l) ∈ addToGroups gs k sn ↔
       (k' ≠ k ∧ (k', l) ∈ gs) ∨
       (k' = k ∧ ((∃ l0, (k, l0) ∈ gs ∧ l = l0 ++ [sn]) ∨ (k ∉ keys gs ∧ l = [sn]))) := by
@@ -665,13 +665,13 @@ theorem addToGroups_lookup (gs : List (GroupKey × List Snap)) (k : GroupKey) (s
 
 /-- invariant of the grouping loop: after the prefix `done`, the association list has distinct
     keys and under key `k` exactly the snapshots of `done` with key `k`, in input order. -/
-def GroupInv (g : GroupBy) (done : List Snap) (gs : List (GroupKey × List Snap)) : Prop :=
+def GroupInv {α : Type} (kf : α → GroupKey) (done : List α) (gs : List (GroupKey × List α)) : Prop :=
   (keys gs).Nodup ∧
-  (∀ k l, (k, l) ∈ gs → l = done.filter (fun s => keyOf g s = k) ∧ l ≠ []) ∧
-  (∀ s ∈ done, keyOf g s ∈ keys gs)
+  (∀ k l, (k, l) ∈ gs → l = done.filter (fun s => kf s = k) ∧ l ≠ []) ∧
+  (∀ s ∈ done, kf s ∈ keys gs)
 
-theorem group_step (g : GroupBy) (done : List Snap) (gs : List (GroupKey × List Snap)) (sn : Snap)
-    (h : GroupInv g done gs) : GroupInv g (done ++ [sn]) (addToGroups gs (keyOf g sn) sn) := by
+theorem group_step {α : Type} (kf : α → GroupKey) (done : List α) (gs : List (GroupKey × List α)) (sn : α)
+    (h : GroupInv kf done gs) : GroupInv kf (done ++ [sn]) (addToGroups gs (kf sn) sn) := by
   obtain ⟨hnd, hl, hk⟩ := h
   refine ⟨?_, ?_, ?_⟩
   · rw [addToGroups_keys]
@@ -684,7 +684,7 @@ theorem group_step (g : GroupBy) (done : List Snap) (gs : List (GroupKey × List
     rw [addToGroups_lookup gs _ sn hnd] at hm
     rcases hm with ⟨hne, hm⟩ | ⟨he, ⟨l0, hm, hl0⟩ | ⟨hn, hl0⟩⟩
     · have := hl k l hm
-      have hne' : ¬ keyOf g sn = k := fun e => hne e.symm
+      have hne' : ¬ kf sn = k := fun e => hne e.symm
       simp [List.filter_append, hne', this.1.symm, this.2]
     · subst he
       have := hl _ l0 hm
@@ -692,7 +692,7 @@ theorem group_step (g : GroupBy) (done : List Snap) (gs : List (GroupKey × List
       simp [List.filter_append, ← this.1]
     · subst he
       subst hl0
-      have : done.filter (fun s => keyOf g s = keyOf g sn) = [] := by
+      have : done.filter (fun s => kf s = kf sn) = [] := by
         simp only [List.filter_eq_nil_iff, decide_eq_true_eq]
         intro s hs e
         exact hn (e ▸ hk s hs)
@@ -708,23 +708,21 @@ theorem group_step (g : GroupBy) (done : List Snap) (gs : List (GroupKey × List
       · assumption
       · simp
 
-theorem group_fold_inv (g : GroupBy) (rest done : List Snap) (gs : List (GroupKey × List Snap))
-    (h : GroupInv g done gs) :
-    GroupInv g (done ++ rest) (rest.foldl (fun gs sn => addToGroups gs (keyOf g sn) sn) gs) := by
+theorem group_fold_inv {α : Type} (kf : α → GroupKey) (rest done : List α) (gs : List (GroupKey × List α))
+    (h : GroupInv kf done gs) :
+    GroupInv kf (done ++ rest) (rest.foldl (fun gs sn => addToGroups gs (kf sn) sn) gs) := by
   induction rest generalizing done gs with
   | nil => simpa using h
   | cons sn rest ih =>
-    have := ih (done ++ [sn]) _ (group_step g done gs sn h)
+    have := ih (done ++ [sn]) _ (group_step kf done gs sn h)
     simpa [List.append_assoc] using this
 
-/-- **group_partition**: `GroupSnapshots` partitions the list by key. The keys are pairwise
-    distinct, the group of key `k` is exactly the sub-list of the input with key `k` (input order
-    kept, never empty), and every snapshot's key has a group. -/
-theorem group_partition (g : GroupBy) (l : List Snap) :
-    (keys (groupSnapshots g l)).Nodup ∧
-    (∀ k grp, (k, grp) ∈ groupSnapshots g l → grp = l.filter (fun s => keyOf g s = k) ∧ grp ≠ []) ∧
-    (∀ s ∈ l, ∃ grp, (keyOf g s, grp) ∈ groupSnapshots g l) := by
-  have := group_fold_inv g l [] [] ⟨by simp [keys], by simp, by simp⟩
+/-- the grouping loop partitions any list by the key function -/
+theorem groupWith_partition {α : Type} (kf : α → GroupKey) (l : List α) :
+    (keys (groupWith kf l)).Nodup ∧
+    (∀ k grp, (k, grp) ∈ groupWith kf l → grp = l.filter (fun s => kf s = k) ∧ grp ≠ []) ∧
+    (∀ s ∈ l, ∃ grp, (kf s, grp) ∈ groupWith kf l) := by
+  have := group_fold_inv kf l [] [] ⟨by simp [keys], by simp, by simp⟩
   simp only [List.nil_append] at this
   refine ⟨this.1, this.2.1, ?_⟩
   intro s hs
@@ -733,6 +731,15 @@ theorem group_partition (g : GroupBy) (l : List Snap) :
   obtain ⟨⟨k, grp⟩, hm, he⟩ := this
   simp only at he
   exact ⟨grp, he ▸ hm⟩
+
+/-- **group_partition**: `GroupSnapshots` partitions the list by key. The keys are pairwise
+    distinct, the group of key `k` is exactly the sub-list of the input with key `k` (input order
+    kept, never empty), and every snapshot's key has a group. -/
+theorem group_partition (g : GroupBy) (l : List Snap) :
+    (keys (groupSnapshots g l)).Nodup ∧
+    (∀ k grp, (k, grp) ∈ groupSnapshots g l → grp = l.filter (fun s => keyOf g s = k) ∧ grp ≠ []) ∧
+    (∀ s ∈ l, ∃ grp, (keyOf g s, grp) ∈ groupSnapshots g l) :=
+  groupWith_partition (keyOf g) l
 
 /-- two snapshots of the input end up in the same group iff they agree on the chosen criteria
     (paths and tags as multisets) -/
